@@ -1,3 +1,5 @@
+\* The Lexer machine on its own: every input of LexerData, properties of the machine itself.
+\* (hv/checks/c12.py copies this next to a generated LexerData.tla and a root module EXTENDS Lexer.)
 SPECIFICATION Spec
 INVARIANTS TypeOK SpanExact ReaderAgrees
 PROPERTIES CursorForward Terminates
